@@ -129,16 +129,21 @@ def run(ctx):
 
     # V: random long histories on larger tries validated by the trace specification
     def traces():
-        tp = os.path.join(ctx.scratch, "trace.ndjson")
-        wp = os.path.join(ctx.scratch, "tworld.json")
-        s, _ = ctx.drive(drv, ["-mode", "record", "-trace", tp, "-world", wp, "-n", ctx.pick(40, 300), "-steps", ctx.pick(80, 120),
-                               "-cleans", ctx.pick(0, 1 << 20)], name="c21-record")
-        if s.get("violations"):
-            return
-        mod, w = world_module(ctx, "HashDBTraceW", "HashDBTrace", wp)
-        ok, consumed, total, r = ctx.validate(mod, tp, cfg="state/HashDBTrace", ntraces=s["traces"], timeout=3600)
-        if not ok:
-            ctx.reject_trace("state/HashDBTrace", tp, consumed, r)
+        # (thorough: a second set of histories whose storage values are large enough for Commit to
+        #  write and uncache in several batches, with the clean cache enabled)
+        runs = [("", ["-n", ctx.pick(40, 300), "-steps", ctx.pick(80, 120), "-cleans", ctx.pick(0, 1 << 20)])]
+        if ctx.thorough:
+            runs.append(("fat", ["-n", 60, "-steps", 100, "-cleans", 1 << 20, "-fat", 50000]))
+        for tag, args in runs:
+            tp = os.path.join(ctx.scratch, "trace%s.ndjson" % tag)
+            wp = os.path.join(ctx.scratch, "tworld%s.json" % tag)
+            s, _ = ctx.drive(drv, ["-mode", "record", "-trace", tp, "-world", wp] + args, name="c21-record" + tag)
+            if s.get("violations"):
+                continue
+            mod, w = world_module(ctx, "HashDBTraceW" + tag, "HashDBTrace", wp)
+            ok, consumed, total, r = ctx.validate(mod, tp, cfg="state/HashDBTrace", ntraces=s["traces"], timeout=3600)
+            if not ok:
+                ctx.reject_trace("state/HashDBTrace", tp, consumed, r)
 
     def garbage():
         probe_garbage(ctx, drv, 2, 0)
@@ -148,6 +153,6 @@ def run(ctx):
     traces()
     garbage()
     return ctx.finish(rule="MC: all client histories (build/reference/release/cap at every flush boundary/commit, MaxRef=1) over the built-in DAG and over DAGs of real trie histories; R: every edge of those graphs on hashdb.Database; V: random histories on larger tries",
-                      assumptions=["Commit modelled as atomic (tries smaller than IdealBatchSize)",
+                      assumptions=["Commit modelled as atomic (its intermediate batch writes are not observed; thorough tier runs histories whose commits span several batches)",
                                    "client builds states only on readable parents and references only readable roots",
                                    "node hashes are collision free (ids by hash)"])
